@@ -3,7 +3,8 @@
    type checking of the catalogue programs (TypeRules.v), validated against rustc itself on the whole catalogue by
    tools/c18_harness.py.  The domain [all_ops] is finite and bound in the statements. *)
 From Coq Require Import String List Bool.
-From PV Require Import TypeRules TypeRulesProofs.
+From PV Require Import TypeRules TypeRulesProofs AliasRules.
+From PV.Gen Require Import Aliases.
 From PV.Gen Require Import Impls.
 
 (* every misuse program of the catalogue is rejected *)
@@ -38,6 +39,12 @@ Theorem C18_model_total_on_domain :
   forall o, In o all_ops -> model_error (check gen_table o) = false.
 Proof. exact model_total. Qed.
 
+(* the crate-level aliases programs are normally written against (paseto_v2::PieWrappedSecretKey, ...) name the
+   generic type, version and kind that their name promises *)
+Theorem C18_crate_aliases_name_what_they_say : forall a, In a gen_aliases -> alias_ok a = true.
+Proof. exact aliases_ok_forall. Qed.
+
+Print Assumptions C18_crate_aliases_name_what_they_say.
 Print Assumptions C18_misuse_does_not_compile.
 Print Assumptions C18_intended_compiles.
 Print Assumptions C18_catalogue_complete.
